@@ -7,6 +7,7 @@ extern "C" {
 struct vsim_keymat { const unsigned char *cert; size_t certLen; const unsigned char *key; size_t keyLen; const unsigned char *ca; size_t caLen; };
 int vsim_keymat(int kind, struct vsim_keymat *m);
 int vsim_ocsp_blob(int which, const unsigned char **p, size_t *n);
+void vsim_pem_bundle(const unsigned char **certs, size_t *certsLen, const unsigned char **key, size_t *keyLen);
 int vsim_psk_count(void);
 void vsim_psk_get(int i, const unsigned char **id, int *idLen, const unsigned char **key, int *keyLen);
 void vsim_tls13_psk(const unsigned char **key, int *keyLen, const unsigned char **id, int *idLen);
